@@ -69,6 +69,26 @@ theorem projectionMatrix_ortho_corners (n f l r t b : α) (hnf : n ≠ f) (hlr :
     simp only [Gen.V3.mulM44, Gen.Frustum.projectionMatrix_ortho, sel, if_true, if_false, Bool.false_eq_true] <;>
     (simp only [mul_zero, zero_mul, add_zero, zero_add, mul_neg, mul_one, neg_neg, neg_mul] ; congr 1 <;> field_simp <;> ring)
 
+/-- Mathlib reading of `Vec3 * Matrix44` (as in C05): append 1, multiply the row vector, divide by the homogeneous coordinate -/
+theorem V3_mulM44_homog (v : V3 α) (m : M44 α) :
+    Gen.V3.mulM44 v m = ⟨(Matrix.vecMul v.homog m.toMat) 0 / (Matrix.vecMul v.homog m.toMat) 3,
+      (Matrix.vecMul v.homog m.toMat) 1 / (Matrix.vecMul v.homog m.toMat) 3,
+      (Matrix.vecMul v.homog m.toMat) 2 / (Matrix.vecMul v.homog m.toMat) 3⟩ := by
+  simp [Gen.V3.mulM44, V3.homog, M44.toMat, Matrix.vecMul, dotProduct, Fin.sum_univ_four]
+/-- the corner theorems in Mathlib's terms -/
+theorem projectionMatrix_persp_corners_homog (n f l r t b : α) (hn : n ≠ 0) (hf : f ≠ 0) (hnf : n ≠ f) (hlr : l ≠ r) (hbt : b ≠ t)
+    (cx cy cz : Bool) :
+    let h := Matrix.vecMul (V3.homog ⟨sel cx l r * (sel cz n f / n), sel cy b t * (sel cz n f / n), -(sel cz n f)⟩)
+      (Gen.Frustum.projectionMatrix_persp n f l r t b).toMat
+    (⟨h 0 / h 3, h 1 / h 3, h 2 / h 3⟩ : V3 α) = ⟨sel cx (-1) 1, sel cy (-1) 1, sel cz (-1) 1⟩ := by
+  intro h
+  rw [← projectionMatrix_persp_corners n f l r t b hn hf hnf hlr hbt cx cy cz, V3_mulM44_homog]
+theorem projectionMatrix_ortho_corners_homog (n f l r t b : α) (hnf : n ≠ f) (hlr : l ≠ r) (hbt : b ≠ t) (cx cy cz : Bool) :
+    let h := Matrix.vecMul (V3.homog ⟨sel cx l r, sel cy b t, -(sel cz n f)⟩) (Gen.Frustum.projectionMatrix_ortho n f l r t b).toMat
+    (⟨h 0 / h 3, h 1 / h 3, h 2 / h 3⟩ : V3 α) = ⟨sel cx (-1) 1, sel cy (-1) 1, sel cz (-1) 1⟩ := by
+  intro h
+  rw [← projectionMatrix_ortho_corners n f l r t b hnf hlr hbt cx cy cz, V3_mulM44_homog]
+
 /-! ## projectPointToScreen, projectScreenToRay, screenToLocal / localToScreen -/
 theorem projectPointToScreen_persp (n f l r t b : α) (hlr : l ≠ r) (hbt : b ≠ t) (p : V3 α) (hz : p.z ≠ 0) :
     Gen.Frustum.projectPointToScreen_persp n f l r t b p =
@@ -742,6 +762,12 @@ theorem isVisiblePoint_ortho_identity (tmin : α) (sqrt : α → α) (hlen : Len
     planes_ortho_interior tmin sqrt hlen n f l r t b]
 
 
+/-! FULL STATEMENT of the property's clause (not proved in this generality):
+     for EVERY camera matrix M, planes (p, M) i = (planes (p) i) transformed by M            (all i < 6).
+   What is proved below (`planesM_persp_affine`, `planesM_ortho_affine`) is this clause on half-spaces for every AFFINE M
+   with POSITIVE determinant; the names carry `_affine` instead of `_partial`.  Missing: det < 0 (there the code's normals
+   point inwards, as `Plane3 * M` would also give; FrustumTest then culls the inside — measured by c16_corr.cpp), projective M,
+   and the identification with `Plane3::operator* (M)` (C15's extraction). -/
 /-! ### `planes (p, M)` = the planes of `planes (p)` mapped by `M`, for affine orientation-preserving `M`
 (rigid motions and uniform or non-uniform positive scalings included).  Stated on half-spaces: a point `q` is inside a
 plane of `planes (p)` iff its image `q * M` is inside the corresponding plane of `planes (p, M)`.
